@@ -323,6 +323,12 @@ func (fr *Frame) execInstr(in ssa.Instruction, st *State) *State {
 		}
 		if obj := x.Object(); obj != nil {
 			name = obj.Name()
+			if v, isVar := obj.(*types.Var); isVar && v.IsField() {
+				name = "" // a field selector is not a local variable
+			}
+			if _, isVar := obj.(*types.Var); !isVar {
+				name = "" // functions, types, packages
+			}
 			if name != "" && name != "_" {
 				st.env[name] = envEntry{val: fr.val(x.X), typ: obj.Type(), isAddr: x.IsAddr}
 			}
@@ -526,6 +532,20 @@ func (fr *Frame) execUnOp(x *ssa.UnOp, st *State) *State {
 	switch x.Op {
 	case token.MUL: // load
 		et := x.Type()
+		if g, ok := x.X.(*ssa.Global); ok && g.Pkg != nil && !w.inRepo(g.Pkg.Pkg.Path()) && w.sortOf(et) == SIface {
+			// sentinel error variables of dependencies (os.ErrNotExist, io.EOF, leveldb.ErrNotFound ...): fixed, distinct,
+			// non-nil values (assumption: nobody reassigns them)
+			name := "sentinel:" + g.Pkg.Pkg.Path() + "." + g.Name()
+			tag, ok := w.tagOf[name]
+			if !ok {
+				tag = len(w.tagType)
+				w.tagOf[name] = tag
+				w.tagType = append(w.tagType, nil)
+			}
+			fr.regs[x] = MkIface(IntLit(int64(tag)), w.globalLoc(g))
+			u.libAssumed["sentinel "+g.Pkg.Pkg.Path()+"."+g.Name()+" is a fixed non-nil value"]++
+			return st
+		}
 		fr.checkAddr(x.X, st, x.Pos())
 		if ia, ok := x.X.(*ssa.IndexAddr); ok && isByteSlice(ia.X.Type()) {
 			// byte of an immutable []byte value
